@@ -307,6 +307,79 @@ fn server(toks: &[&str], idle: bool) -> String {
     }
 }
 
+/// mode B: `B <small> <cache> <slow_ms> <script>` -- a full server whose blocking pool has ONE thread.  Client A sends
+/// the script (an upload cut short) and stays connected; once the server is receiving the body into a file, client B
+/// sends a request whose handler sleeps <slow_ms> and so occupies the whole blocking pool; then A goes away.  The temp
+/// file of the abandoned upload must be gone by the time A's connection has ended -- observed while B's handler is
+/// still running (busy=<files in the cache directory then>), not only after the server stopped.
+fn server_busy(toks: &[&str]) -> String {
+    let small: usize = toks[0].parse().unwrap();
+    let tmp = temp_dir::TempDir::new().unwrap();
+    let cache = cache_dir(toks[1], &tmp);
+    let slow_ms: u64 = toks[2].parse().unwrap();
+    let script = expand_bytes(toks[3]);
+    let log = Arc::new(Mutex::new(Vec::new()));
+    let log2 = log.clone();
+    let slow_started = Arc::new(std::sync::atomic::AtomicBool::new(false));
+    let ss2 = slow_started.clone();
+    let permit = Permit::new();
+    let executor = safina::executor::Executor::new(2, 1).unwrap();
+    let mut builder = HttpServerBuilder::new().max_conns(4).small_body_len(small).permit(permit.new_sub());
+    if let Some(dir) = &cache {
+        builder = builder.receive_large_bodies(dir);
+    }
+    let (addr, stopped) = executor
+        .block_on(builder.spawn(move |req: Request| {
+            if req.url.path() == "/z" {
+                ss2.store(true, std::sync::atomic::Ordering::SeqCst);
+                std::thread::sleep(std::time::Duration::from_millis(slow_ms));
+                return Response::text(200, "slow");
+            }
+            scripted(req, &log2)
+        }))
+        .unwrap();
+    let count = || std::fs::read_dir(tmp.path()).unwrap().count();
+    let wait = |f: &dyn Fn() -> bool, ms: u64| {
+        let t0 = std::time::Instant::now();
+        while !f() && t0.elapsed() < std::time::Duration::from_millis(ms) {
+            std::thread::sleep(std::time::Duration::from_millis(2));
+        }
+    };
+    let mut a = std::net::TcpStream::connect(addr).unwrap();
+    let _ = a.write_all(&script);
+    // the upload's handler has run and the body is being received into a file (or the scenario has none)
+    wait(&|| count() > 0, 1500);
+    let had_file = count() > 0;
+    let mut b = std::net::TcpStream::connect(addr).unwrap();
+    let _ = b.write_all(b"GET /z HTTP/1.1\r\n\r\n");
+    wait(&|| slow_started.load(std::sync::atomic::Ordering::SeqCst), 1500);
+    let _ = a.shutdown(std::net::Shutdown::Write);
+    let wire = read_all(&mut a);
+    // A's connection has ended; B's handler still sleeps
+    wait(&|| count() == 0, 300);
+    let busy = count();
+    let still_slow = slow_started.load(std::sync::atomic::Ordering::SeqCst);
+    let _ = read_all(&mut b);
+    drop(permit);
+    let _ = stopped.recv_timeout(std::time::Duration::from_secs(5));
+    let mut files = usize::MAX;
+    for _ in 0..200 {
+        files = count();
+        if files == 0 {
+            break;
+        }
+        std::thread::sleep(std::time::Duration::from_millis(10));
+    }
+    let log = log.lock().unwrap().join(",");
+    format!(
+        "log=[{log}] wire={} files={files} busy={busy} hadfile={} slow={}{}",
+        digest_wire(&wire),
+        u8::from(had_file),
+        u8::from(still_slow),
+        reset_mark()
+    )
+}
+
 fn tables() -> String {
     let mut out = format!("tables plain={}", tok_of_bytes(servlin::ContentType::PlainText.as_str().as_bytes()));
     for code in 0..1000u16 {
@@ -323,6 +396,7 @@ fn main() {
         "S" => server(&toks[1..], false),
         "I" => server(&toks[1..], true),
         "X" => direct_fsize(&toks[1..]),
+        "B" => server_busy(&toks[1..]),
         _ => "?".to_string(),
     });
 }
